@@ -99,6 +99,7 @@ enum Step {
     Process(usize),
     Advance(u64),
     Crash,
+    WaitTimeout(u64),
 }
 
 /// Canonical (deterministic) scheduling with one crash and/or one write fault placed at a
@@ -212,7 +213,8 @@ pub fn run_one(opts: RunOpts) -> RunResult {
         None => gen_plan(&mut rng, &opts.profile, opts.thorough),
     };
     let n_hashes = plan.hashes.len();
-    let node = Node::new(plan.cfg.start_height, &plan.local_pk.to_string());
+    let mut node = Node::new(plan.cfg.start_height, &plan.local_pk.to_string());
+    node.first_partid_zero = opts.seed % 3 == 0;
     let hidx_of = |spec: &crate::gen::HtlcSpec| plan.hashes.iter().position(|h| h.hash == spec.htlc_hash);
     let htlcs: Vec<HtlcRt> = plan
         .htlcs
@@ -594,6 +596,9 @@ fn enabled_steps(w: &World, mgr_up: bool, script: &Option<Script>) -> Vec<(Step,
                 }
             }
             CallState::Ready(_) => v.push((Step::Reply(c.id), 30 * slow / 20 + 1)),
+            // lightningd answers a waitsendpay that carries a timeout with error 200 when the
+            // part is still pending after that time
+            CallState::Blocked if !scripted && c.method == "waitsendpay" && c.params.get("timeout").map(|t| !t.is_null()).unwrap_or(false) => v.push((Step::WaitTimeout(c.id), 6)),
             _ => {}
         }
     }
@@ -924,6 +929,7 @@ async fn lifetime(shared: Shared, local_pk: secp256k1::PublicKey, rng: &mut Rng,
                 Step::Process(_) => 41,
                 Step::Advance(_) => 42,
                 Step::Crash => 43,
+                Step::WaitTimeout(_) => 44,
             };
             // abstract context: per-hash (rec, parts, held)
             let mut ctx = kind;
@@ -984,6 +990,13 @@ async fn lifetime(shared: Shared, local_pk: secp256k1::PublicKey, rng: &mut Rng,
                     w.ev(|| format!("ADVANCE {ms}ms"));
                 }
                 tokio::time::sleep(Duration::from_millis(ms)).await;
+            }
+            Step::WaitTimeout(id) => {
+                let mut w = lock(&shared);
+                if let Some(ci) = w.calls.iter().position(|c| c.id == id && c.state == CallState::Blocked) {
+                    w.ev(|| format!("WAITSENDPAY #{id} times out (code 200)"));
+                    w.calls[ci].state = CallState::Ready(Err(RpcErr::new(200, "Timed out while waiting")));
+                }
             }
             Step::Crash => {
                 let mut w = lock(&shared);
